@@ -188,7 +188,8 @@ fn data_word_case_h(id: u8, active: u32, mode: Mode, history: u8) -> Result<Opti
             let _ = st.word(&w)?;
         }
         r.pages_counter = 1;
-        base = 0x1000;
+        // second packet far into a large file: offsets beyond 2^32 for the history-2 cases
+        base = if history == 2 { 0x1_0000_1000 } else { 0x1000 };
     }
     st.set_rdh(&r.encode(), base)?;
     let mut ihw = words::ihw(active);
